@@ -2,12 +2,18 @@ import Pycoin.Proofs.ChainNoErr
 import Pycoin.Proofs.ChainSpec
 import Pycoin.Model.ChainFinderOld
 import Pycoin.Spec.Chain
-import Pycoin.Proofs.ChainSplit
+import Pycoin.Proofs.ChainMissing
 /-!
 C15 — Header-chain tracking reports a heaviest chain whatever the arrival order.
 Property theorems (core Lean only).  Histories are arbitrary lists of `add_headers` / `lock_to_index`
 calls on a fresh `BlockChain(anchor)`; every call carries its own `set.pop()` ranking and the set iteration
 order is a parameter, so each statement holds for every order CPython may choose.
+
+Delivered(history) is `delivered steps` (every header of every `add_headers` batch), Locked(history) is `lockedOf obs`
+(the items handed to `did_lock_to_index_f`); `C15_dicts_record_delivered` proves that the dicts record exactly the
+delivered headers that are not locked, and `C15_heaviest_over_spec` states maximality against `Spec.Chain` over ALL
+delivered headers.  The statements against the specification add the hypothesis `Consistent (deliveredSpec steps)`: a hash
+names one header (duplicates are identical).
 
 Hypotheses that remain, both explicit: `Step.avoids anchor0` (no delivered header carries the anchor's own hash:
 the anchor is outside the forest) and `runHist … = .ok …` (the model run returns; an `.error` is a Python exception
@@ -489,6 +495,16 @@ theorem C15_chainfinder_inv : ChainFinderInv (fun rev rank cf nodes => cf.loadNo
   · obtain ⟨top, s, hl, hd, hbs⟩ := fo.inv.dcompl b t hb
     exact ⟨b, t, top, s, hb, hm, hl, hd, hbs⟩
   · simp at h'
+
+/-- **C15_missing_parents**.  After every history, the keys of `missing_parents()` that somebody still waits on are
+exactly the parents of registered headers that are not registered themselves. -/
+theorem C15_missing_parents (anchor0 : Nat) (rev : Bool) (steps : List Step) (obs : List Obs) (bc' : BC)
+    (hav : ∀ s ∈ steps, s.avoids anchor0)
+    (hr : runHist rev (BC.new anchor0) steps = .ok (obs, bc')) (top : Nat) :
+    bc'.finder.waitedOn top = true ↔
+      dget bc'.finder.parent top = none ∧ ∃ h, dget bc'.finder.parent h = some top := by
+  obtain ⟨_, f, _⟩ := run_full anchor0 rev steps (BC.new anchor0) bc' [] obs (Full.init anchor0) hav hr
+  exact f.finder.waitedOn_iff top
 
 /-- the three-header history of DESIGN §8 row 12: `30→20`, then the batch `{20→0, 10→20}` with 10 popped first -/
 def witnessBatches : List (List (Nat × Nat) × List Nat) := [([(30, 20)], []), ([(20, 0), (10, 20)], [10, 20])]
